@@ -456,6 +456,27 @@ func checkC07(c *Ctx, r *Report) {
 				r.Check(a[0] == ret.Results[0] && a[1] == ret.Results[1] && dsz != nil && a[2] == ssa.Value(dsz), "C07.R3", key, c.InstrPos(ret), "error is validateRange(returned start, returned end, dataSize)", "the returned error does not validate the very start/end being returned against dataSize")
 				return
 			}
+			// the validator may hand the bounds back together with its verdict: return validate(start, end, dataSize)
+			if ex, ok := ev.(*ssa.Extract); ok {
+				if call, ok := ex.Tuple.(*ssa.Call); ok && calleeName(call) == headersPkg+".validateRange" {
+					a := call.Call.Args
+					dsz := paramNamed(f, "dataSize")
+					h := helperBody(call)
+					passes := func(ri int) bool {
+						// result ri of the validator is its parameter ri on every return
+						return h != nil && ri < len(h.Params) && helperResultBounded(h, ri, func(_ *ssa.Return, v ssa.Value) bool { return v == ssa.Value(h.Params[ri]) })
+					}
+					same := func(ri int) bool {
+						if ret.Results[ri] == a[ri] {
+							return true
+						}
+						e2, ok := ret.Results[ri].(*ssa.Extract)
+						return ok && e2.Tuple == ssa.Value(call) && e2.Index == ri && passes(ri)
+					}
+					r.Check(same(0) && same(1) && dsz != nil && a[2] == ssa.Value(dsz), "C07.R3", key, c.InstrPos(ret), "error is the validator's verdict on (returned start, returned end, dataSize)", "the returned error does not validate the very start/end being returned against dataSize")
+					return
+				}
+			}
 			if u, ok := ev.(*ssa.UnOp); ok {
 				if _, isG := u.X.(*ssa.Global); isG {
 					r.OkT("C07.R3", key, c.InstrPos(ret), "constant error")
@@ -490,7 +511,7 @@ func checkC07(c *Ctx, r *Report) {
 			return ""
 		}
 		bs := &boolSummer{li: li}
-		ok, detail, n := bs.checkTable(f, 0, classify, func(v map[string]bool) (bool, bool) {
+		ok, detail, n := bs.checkTable(f, f.Signature.Results().Len()-1, classify, func(v map[string]bool) (bool, bool) {
 			// arithmetic consistency of the orderings: start<end and end<start cannot both hold
 			if v["sLtE"] && v["eLtS"] {
 				return false, false
